@@ -692,6 +692,23 @@ def run_case(case):
             # ... and the copy is an entity of its own: it is the one that moved
             for clause, detail in compare(g0, geometry(c, kind), np.eye(3), np.array([1.0, 2.0, 3.0]), 1.0):
                 bad("copy-does-not-transform:" + clause, detail)
+            # ... the other way round: the ORIGINAL is transformed after the copy was taken (copy evaluated before or not);
+            # the copy stays where it was, the original moves
+            for pre in (True, False):
+                for tname, apply_t, L_t, b_t in (
+                    ("translate", lambda x: x.translate([1.0, 2.0, 3.0]), np.eye(3), np.array([1.0, 2.0, 3.0])),
+                    ("scale", lambda x: x.scale(2.0, [0.0, 0.0, 0.0]), 2.0 * np.eye(3), np.zeros(3)),
+                ):
+                    eb = make()
+                    gb0 = geometry(eb, kind)
+                    cb_ = eb.copy()
+                    if pre:
+                        geometry(cb_, kind)
+                    apply_t(eb)
+                    for clause, detail in compare(gb0, geometry(cb_, kind), np.eye(3), np.zeros(3), 1.0):
+                        bad(f"copy-not-independent:original-{tname}d-{'after' if pre else 'before'}-copy-evaluated:" + clause, detail)
+                    for clause, detail in compare(gb0, geometry(eb, kind), L_t, b_t, 2.0 if tname == "scale" else 1.0):
+                        bad(f"original-does-not-transform-after-copy:{tname}:" + clause, detail)
             if kind == "additive":
                 e2 = make()
                 chop_all(e2)
